@@ -134,6 +134,12 @@ def SymTabs.remove (t : SymTabs) (n : Name) : Option SymTabs :=
     | none => top
   | [] => top
 
+/-- a table of that name already exists where `enter_scope(n)` would create one -/
+def SymTabs.clashes (t : SymTabs) (n : Name) : Bool :=
+  match t.stack with
+  | [] => (findNamed n t.tops).isSome
+  | f :: _ => (findNamed n f.kids).isSome
+
 /-- the whole forest with the open chain plugged back (for reporting) -/
 def plug : List Frame → Option Scope → Option Scope
   | [], acc => acc
@@ -273,6 +279,10 @@ structure Quirks where
       (`add_comments_includes_directives`) so that they cannot hide a DO statement sharing the
       label; they are kept with that statement or restored -/
   hookSkipsComments : Bool := false
+  /-- `match_labels`: an `End_Do_Stmt` whose label differs from the DO statement's makes
+      `BlockBase.match` restore everything and return None (the pinned code keeps it as
+      content and goes on) -/
+  endDoLabelMismatchFails : Bool := false
   deriving Repr, DecidableEq, Inhabited
 
 structure Table where
@@ -353,6 +363,12 @@ inductive Ghost where
   | emptyScopeName
   /-- the `reader.error` → `sys.exit` path -/
   | sysExit
+  /-- `restore_reader` of a block object: a completed construct is given back (its symbol
+      tables, if any, are NOT removed: F-C16-1) -/
+  | abandon
+  /-- `enter_scope(name)` although a sibling table (or top-level table) of that name exists:
+      top-level tables are re-used, `remove(name)` deletes the first child of that name -/
+  | nameClash
   deriving DecidableEq, Repr
 
 inductive Ev where
@@ -433,7 +449,7 @@ mutual
 /-- `obj.restore_reader(reader)` -/
 def restore : Tree → St → St
   | .leaf _ i _, st => st.put i
-  | .node _ ks, st => restoreRev ks st
+  | .node _ ks, st => restoreRev ks (st.ev (.ghost .abandon))
 /-- `for obj in reversed(ks): obj.restore_reader(reader)` -/
 def restoreRev : List Tree → St → St
   | [], st => st
@@ -686,7 +702,10 @@ def matchedStep (env : Env) (cfg : Cfg) (startT : Option Tree) (startName : Opti
       if cfg.end_.isSome && isaAny inf cfg.endAll then
         match endLabelCheck cfg sinf inf v1 with
         | .error e => (.raise e, s1)
-        | .ok (v2, true) => (.again i v2, s1)
+        | .ok (v2, true) =>
+          if env.tbl.quirks.endDoLabelMismatchFails && inf.isa.contains env.tbl.endDoStmt then
+            (.abort, restoreRc v.rc (restore t s1))
+          else (.again i v2, s1)
         | .ok (v2, false) =>
           match endNameCheck cfg sinf inf with
           | some e => (.raise e, s1)
@@ -739,7 +758,8 @@ def tableNameOf (inf : NodeInfo) : Option Name := if inf.scoping then inf.scopeN
 /-- `SYMBOL_TABLES.enter_scope(table_name, obj)` if the start statement is a scoping region -/
 def enterState (tn : Option Name) (s2 : St) : St :=
   match tn with
-  | some n => ghostIf (n == 0) .emptyScopeName (s2.enter n)
+  | some n =>
+    ghostIf (n == 0) .emptyScopeName ((ghostIf (s2.sym.clashes n) .nameClash s2).enter n)
   | none => s2
 
 /-- `BlockBase.match` up to and including the start statement -/
@@ -895,7 +915,8 @@ def seqNR (q : Quirks) (f : F) : List Cls → List Tree → St → MRes × St
 
 /-- `Main_Program0.match` -/
 def main0Match (env : Env) (f : F) (fuel : Nat) (cfg : Cfg) (scope : Name) (st : St) : MRes × St :=
-  match blockMatch env f fuel cfg (st.enter scope) with
+  match blockMatch env f fuel cfg
+      ((ghostIf (st.sym.clashes scope) .nameClash st).enter scope) with
   | (.raise e, s2) =>
     if e == .outOfFuel then
       -- the model itself ran out of fuel: stop at once (the scope stays open)
